@@ -408,6 +408,26 @@ func body(sc scenario) func(x *gosim.Exec) {
 			x.Freeze() // the verdict at quiescence is sequential: no more deviations
 			time.Sleep(250 * time.Millisecond)
 			cache := newCache(sc.Cache, backend, shared, n)
+			if sc.Cache == "immutable" {
+				// the immutable cache needs no cleaning before it can be read: what a Fetch returns must not depend on whether
+				// older packages are still lying around
+				if err := cache.Fetch(x.Ctx(), key, "/dest/judge/pre"); err == nil {
+					got, what := identify(backend, "/dest/judge/pre")
+					cands := w.candidates()
+					ok := len(cands) == 0
+					for _, cnd := range cands {
+						ok = ok || cnd == got
+					}
+					switch {
+					case got < 0:
+						x.Violate("fetch-installed-incomplete-or-mixed-tree:cache=immutable:at=quiescence:before-clean"+w.faultSuffix()+w.brokenSuffix(), "the fresh client's Fetch returned nil and installed %s", what)
+						return
+					case !ok:
+						x.Violate("stale-version-after-acknowledged-store:cache=immutable:before-clean"+w.faultSuffix()+w.brokenSuffix(), "Fetch at quiescence (before any CleanEntry) installed v%d; entitled versions are %v", got, cands)
+						return
+					}
+				}
+			}
 			_ = cache.CleanEntry(x.Ctx(), key)
 			err := cache.Fetch(x.Ctx(), key, "/dest/judge/1")
 			cands := w.candidates()
